@@ -56,6 +56,11 @@ Proof. reflexivity. Qed.
 Lemma expand_length l m n (atoms : list (atom T P)) : length (expand O l m n atoms) = length atoms * (l * m * n).
 Proof. rewrite expand_grouped. apply length_flat_map_const. intros a _. apply images_length. Qed.
 
+(* the images of the p-th atom occupy the p-th block of l*m*n consecutive places, in the order of the index list *)
+Lemma parent_images_consecutive l m n (atoms : list (atom T P)) p d : p < length atoms ->
+  firstn (l * m * n) (skipn (p * (l * m * n)) (expand O l m n atoms)) = images O l m n (nth p atoms d).
+Proof. intros Hp. rewrite expand_grouped. apply flat_map_block; [intros a; apply images_length | exact Hp]. Qed.
+
 Lemma images_payload l m n (a : atom T P) : Forall (fun a' => at_pay a' = at_pay a) (images O l m n a).
 Proof. unfold images. apply Forall_forall. intros a' H. apply in_map_iff in H. destruct H as [[[i j] k] [E _]]. subst. reflexivity. Qed.
 
